@@ -1006,7 +1006,7 @@ void SLUFactor<R>::assign(const SLUFactor<R>& old)
    memcpy(this->l.start, old.l.start, (unsigned int)this->l.startSize * sizeof(*this->l.start));
    memcpy(this->l.row,   old.l.row, (unsigned int)this->l.startSize * sizeof(*this->l.row));
 
-   if(!this->l.rval.empty())
+   if(!old.l.rval.empty())
    {
       assert(old.l.ridx  != nullptr);
       assert(old.l.rbeg  != nullptr);
